@@ -12,7 +12,19 @@ for d in seeded/*/; do
     out=$(./seedtest.sh /verif/$d $p 2>&1 | grep -v '^??')
     line=$(echo "$out" | grep '\[check\]' | tail -1)
     viol=$(echo "$out" | grep -c '^VIOLATION')
-    res="$res{\"check\": \"./seedtest.sh seeded/$id $p  (git apply patch.diff; ./check $p --tier quick; git reset --hard)\", \"violation_reported\": $([ $viol -gt 0 ] && echo true || echo false), \"summary\": \"$(echo $line | sed 's/"/\\"/g')\"},"
+    kinds=$(python3 - <<PY 2>/dev/null
+import json,collections
+try:
+    d=json.load(open('/verif/replays/$p-1-quick.json'))
+    c=collections.Counter(x.get('kind','?') for x in d.get('cases',[]))
+    b=d.get('broken_obligations',[])
+    print(", ".join("%s x%d"%(k,v) for k,v in c.most_common(6)) + (("; broken: "+", ".join(map(str,b[:3]))) if b else ""))
+except Exception as e:
+    print("")
+PY
+)
+    [ $viol -gt 0 ] || kinds=""
+    res="$res{\"check\": \"./seedtest.sh seeded/$id $p  (git apply patch.diff; ./check $p --tier quick; git reset --hard)\", \"violation_reported\": $([ $viol -gt 0 ] && echo true || echo false), \"summary\": \"$(echo $line | sed 's/"/\\"/g')\", \"failing_op_kinds\": \"$kinds\"},"
     echo "$id $p viol=$viol $line"
   done
   echo "{\"runs\": [${res%,}]}" > $d/verif_result.json
